@@ -802,6 +802,21 @@ static void sb_flush_all(VT *v)
 {
   for (int i = 0; i < G.nvt; ++i) sb_flush_all(&G.vts[i]);
 }
+// drain up to and including the youngest buffered store to `addr` (coherence: a later access of the same thread to that location
+// must not overtake it)
+static void sb_flush_through(VT *v, uintptr_t addr)
+{
+  int last = -1;
+  for (int i = 0; i < v->nsb; ++i)
+    if (v->sb[i].addr == addr) last = i;
+  for (int i = 0; i <= last; ++i) sb_flush_one(v);
+}
+// what a read-modify-write / seq_cst store of `me` with memory order `mo` on `addr` drains first
+static void sb_before_rmw(VT *me, uintptr_t addr, int mo)
+{
+  if (!G.cfg.weak_stores || mo == 3 || mo == 4 || mo == 5) sb_flush_all(me);  // x86: every locked instruction; C++: release-class
+  else sb_flush_through(me, addr);
+}
 static bool sb_lookup(VT *v, uintptr_t addr, int size, uint64_t *val)
 {
   for (int i = v->nsb - 1; i >= 0; --i)
@@ -1366,7 +1381,7 @@ T atomic_rmw(int kind, volatile T *a, T v, int mo)
         return static_cast<T>(fwd);
       }
     } else {
-      sb_flush_all(me);  // seq_cst store (xchg) and every read-modify-write (lock prefix) drain the buffer first
+      sb_before_rmw(me, addr, kind == OP_STORE ? 5 : mo);  // seq_cst store (xchg) and read-modify-writes drain the buffer first
     }
   }
   const T old = __atomic_load_n(a, __ATOMIC_SEQ_CST);
@@ -1394,7 +1409,7 @@ int atomic_cas(bool weak, volatile T *a, T *expected, T desired, int mo, int fmo
   check_access(addr, sizeof(T), "atomic access");
   sched_point(me, kind, addr);
   check_access(addr, sizeof(T), "atomic access");
-  if (G.cfg.tso) sb_flush_all(me);
+  if (G.cfg.tso) sb_before_rmw(me, addr, mo);
   const T old = __atomic_load_n(a, __ATOMIC_SEQ_CST);
   if (old == *expected) {
     bool spurious = false;
@@ -1508,7 +1523,7 @@ void __tsan_atomic_thread_fence(int mo)
   }
   VT *me = tl_vt;
   sched_point(me, OP_FENCE, 0);
-  if (G.cfg.tso && mo == 5) sb_flush_all(me);  // mfence; weaker fences are compiler-only on x86
+  if (G.cfg.tso && (mo == 5 || (G.cfg.weak_stores && (mo == 3 || mo == 4)))) sb_flush_all(me);  // mfence; release fences matter in weak mode
   __atomic_thread_fence(__ATOMIC_SEQ_CST);
   hb_fence(me, mo);
   me->ro_steps++;
